@@ -378,7 +378,7 @@ def gen_rejected(g, ms, h, nonjson=True):
 
 
 def gen_program(g, ms, n_steps, p_read=0.2, depth=2, handles=None, mutator_filter=None,
-                max_doc_nodes=120, p_node=0.05):
+                max_doc_nodes=120, p_node=0.05, p_iter_mut=0.0):
     """Generate op steps against ModelState ``ms`` (advanced as we go).
 
     handles: candidate handle ids (default: all roots). Targets are chosen uniformly over
@@ -416,6 +416,10 @@ def gen_program(g, ms, n_steps, p_read=0.2, depth=2, handles=None, mutator_filte
             op, args = g.dict_read(t) if read else g.dict_mutator(t, depth, allow_d)
         else:
             op, args = g.list_read(t) if read else g.list_mutator(t, depth, allow_l)
+        if not read and p_iter_mut and op not in ("reset", "popitem", "iadd") and r.random() < p_iter_mut:
+            # the mutator runs while an iterator over the same container is live
+            op, args = "iter_mut", [kind == "list" and r.random() < 0.25, r.choice([0, 1, 1, 2, 3]), op, args,
+                                    r.choice([1, 2, 3, 5])]
         if not read and op in ("setitem", "append", "insert", "setdefault") and args and r.random() < p_node \
                 and not isinstance(args[0], dict):
             # the value is an existing nested collection of the same document (d["b"] = d["a"]): it must be
